@@ -1,7 +1,9 @@
 package c12
 
 import (
+	"bytes"
 	"context"
+	"errors"
 	"fmt"
 	"io"
 	"log"
@@ -73,7 +75,9 @@ type c12Case struct {
 	Mode    string            `json:"mode"` // observer | flows | queue
 	Workers int               `json:"workers,omitempty"`
 	Cexp    int64             `json:"cexp,omitempty"`
-	Drop    []int             `json:"drop,omitempty"` // tags the (fake) coordinator filters out
+	Drop    []int             `json:"drop,omitempty"`  // tags the (fake) coordinator filters out
+	UFail   []int             `json:"ufail,omitempty"` // work ids for which SetUpkeepState returns an error
+	QFail   []int             `json:"qfail,omitempty"` // work ids for which RetryQueue.Enqueue returns an error
 	Script  []kit.ScriptEntry `json:"script,omitempty"`
 	Steps   []c12Step         `json:"steps"`
 	Obs     []stepObs         `json:"obs,omitempty"`
@@ -91,6 +95,32 @@ type sinkRec struct {
 	badSt  int // SetUpkeepState with a state other than Ineligible
 	props  []common.CoordinatedBlockProposal
 	prT    []int64
+	ufail  map[int]bool // SetUpkeepState refuses these work ids
+}
+
+func intSet(xs []int) map[int]bool {
+	m := map[int]bool{}
+	for _, x := range xs {
+		m[x] = true
+	}
+	return m
+}
+
+// errSpy is the writer behind the loggers handed to the flows: the tickers log an observer's
+// Process error, which is the only place where it surfaces.
+type errSpy struct {
+	mu  sync.Mutex
+	rec *kit.Rec
+	at  []int64
+}
+
+func (e *errSpy) Write(p []byte) (int, error) {
+	if bytes.Contains(p, []byte("error processing observer")) {
+		e.mu.Lock()
+		e.at = append(e.at, e.rec.Now())
+		e.mu.Unlock()
+	}
+	return len(p), nil
 }
 
 type recStore struct{ s *sinkRec }
@@ -116,6 +146,9 @@ func (r recUpdater) SetUpkeepState(_ context.Context, x common.CheckResult, st c
 	}
 	r.s.inelig = append(r.s.inelig, x)
 	r.s.inT = append(r.s.inT, r.s.rec.Now())
+	if r.s.ufail[kit.ReadWorkID(x.WorkID)] {
+		return fmt.Errorf("scripted state updater failure")
+	}
 	return nil
 }
 
@@ -153,15 +186,22 @@ type recQueue struct {
 	inner types.RetryQueue
 	enq   []qEnq
 	deq   []qDeq
+	qfail map[int]bool // Enqueue refuses these work ids
 }
 
 func (q *recQueue) Enqueue(items ...types.RetryRecord) error {
-	q.mu.Lock()
+	var err error
 	for _, it := range items {
+		q.mu.Lock()
 		q.enq = append(q.enq, qEnq{t: q.rec.Now(), rec: it})
+		q.mu.Unlock()
+		if q.qfail[kit.ReadWorkID(it.Payload.WorkID)] {
+			err = errors.Join(err, fmt.Errorf("scripted retry queue failure"))
+			continue
+		}
+		err = errors.Join(err, q.inner.Enqueue(it))
 	}
-	q.mu.Unlock()
-	return q.inner.Enqueue(items...)
+	return err
 }
 
 func (q *recQueue) Dequeue(n int) ([]common.UpkeepPayload, error) {
@@ -324,8 +364,8 @@ func runObserver(t *testing.T, c *c12Case) bool {
 		go func() { _ = rn.Start(ctx) }()
 		synctest.Wait()
 		rr := &recRunner{rec: rec, inner: rn}
-		s := &sinkRec{rec: rec}
-		q := &recQueue{rec: rec, inner: stores.NewRetryQueue(lg)}
+		s := &sinkRec{rec: rec, ufail: intSet(c.UFail)}
+		q := &recQueue{rec: rec, inner: stores.NewRetryQueue(lg), qfail: intSet(c.QFail)}
 		drop := dropFilter{drop: map[int]bool{}}
 		for _, d := range c.Drop {
 			drop.drop[d] = true
@@ -442,8 +482,9 @@ func runFlows(t *testing.T, c *c12Case) bool {
 	distinct := true
 	synctest.Test(t, func(t *testing.T) {
 		ctx := context.Background()
-		lg := log.New(io.Discard, "", 0)
 		rec := kit.NewRec()
+		spy := &errSpy{rec: rec}
+		lg := log.New(spy, "", 0)
 		pipe := kit.NewPipe(rec, c.Script)
 		setLat(pipe, c)
 		slot := func() int { return int(rec.Now() / sec) }
@@ -454,8 +495,8 @@ func runFlows(t *testing.T, c *c12Case) bool {
 		}
 		go func() { _ = rn.Start(ctx) }()
 		rr := &recRunner{rec: rec, inner: rn, slot: slot}
-		s := &sinkRec{rec: rec}
-		q := &recQueue{rec: rec, inner: stores.NewRetryQueue(lg)}
+		s := &sinkRec{rec: rec, ufail: intSet(c.UFail)}
+		q := &recQueue{rec: rec, inner: stores.NewRetryQueue(lg), qfail: intSet(c.QFail)}
 		pq := stores.NewProposalQueue(UTG)
 		logs, recov, getter := &FakeLogProvider{}, &FakeRecoverable{}, &FakeGetter{}
 		bld := &tagBuilder{tab: map[string]kit.Payload{}}
@@ -549,6 +590,13 @@ func runFlows(t *testing.T, c *c12Case) bool {
 			}
 			o.Done = doneOf(rec.InvsOf(k))
 			lo, hi := int64(k)*sec, int64(k+1)*sec
+			if o.Err == 0 {
+				for _, et := range spy.at {
+					if et >= lo && et < hi {
+						o.Err = 2
+					}
+				}
+			}
 			for i, x := range s.staged {
 				if s.stT[i] >= lo && s.stT[i] < hi {
 					o.Staged = append(o.Staged, kit.ReadResult(x))
